@@ -16,7 +16,10 @@ import time
 
 ROOT = os.path.dirname(os.path.dirname(os.path.abspath(__file__)))
 REPO = os.environ.get("VERIF_REPO", "/repo")
-BUILD = os.path.join(ROOT, ".build")
+LOCKDIR = os.path.join(ROOT, ".build")
+# build products that depend on which repository tree is being checked live in a per-tree directory, so a run
+# against a scratch copy (VERIF_REPO=...) never rewrites the go.work / binaries used by runs against /repo
+BUILD = LOCKDIR if REPO == "/repo" else os.path.join(LOCKDIR, "alt-" + hashlib.sha256(REPO.encode()).hexdigest()[:10])
 COQ = os.path.join(ROOT, "coq")
 HARNESS = os.path.join(ROOT, "harness")
 EVID = os.path.join(ROOT, "evidence")
@@ -46,8 +49,8 @@ def sh(cmd, timeout=3600, cwd=None, env=None, input=None):
 
 class Lock:
     def __init__(self, name):
-        os.makedirs(BUILD, exist_ok=True)
-        self.path = os.path.join(BUILD, name + ".lock")
+        os.makedirs(LOCKDIR, exist_ok=True)
+        self.path = os.path.join(LOCKDIR, name + ".lock")
 
     def __enter__(self):
         self.f = open(self.path, "w")
